@@ -406,7 +406,7 @@ def run(ctx):
             c.pop("others", None)
     else:
         cases = corpus()
-        nrt, nh, na = (450, 4, 1) if ctx.quick() else (3000, 14, 3)
+        nrt, nh, na = (300, 3, 1) if ctx.quick() else (3000, 14, 3)
         cases += [gen_rt(ctx.rng) for _ in range(nrt)]
         hs, apis = usable_fixtures(stats)
         if not hs or not apis:
